@@ -117,7 +117,9 @@ Theorem C06_audience_exact :
 Proof. exact audience_exact. Qed.
 Print Assumptions C06_audience_exact.
 
-(* JWT access tokens: iss, sub, aud, client_id from the request / client, jti and exp
+(* JWT access tokens: iss, sub, aud, client_id from the request / client (the request's FINAL
+   subject and scopes - in a token exchange the storage may have retargeted them away from the
+   presented subject_token's; act names the presented actor), jti and exp
    = the storage's token id and expiry, iat = nbf = now - skew, private claims only
    for granted custom scopes and never under a name that folds (ASCII case, U+017F = s,
    U+212A = k) to a registered member the token carries; op.VerifyAccessToken (C02 model)
@@ -136,7 +138,8 @@ Theorem C06_access_jwt_verifies :
     /\ a_exp a = st_exp now (cl_at_life cl')
     /\ a_iat a = (sec now - cl_skew cl')%Z /\ a_nbf a = a_iat a
     /\ (forall e, In e (a_extra a) ->
-          string_in ("custom:" ++ fst e)%string (restrict (cl_drop_at cl') (rq_scopes rq)) = true
+          (if is_exchange f then e = ("act", act_json (rq_actor rq)) /\ rq_actor rq <> ""
+           else string_in ("custom:" ++ fst e)%string (restrict (cl_drop_at cl') (rq_scopes rq)) = true)
           /\ forall n, In n (at_written a) -> fold_eq (fst e) n = false)
     /\ (sign_complete verify kat -> key_ok kat = true -> published_once kat keys = true ->
         string_in (sk_alg kat) (effective_algs algs) = true ->
